@@ -291,8 +291,8 @@ def shrink(case, bucket, budget):
 
 def main(tier, seed, t0):
     quick = tier == "quick"
-    shards = [("defs", (seed * 1000 + 700 + k, 250 if quick else 4000)) for k in range(12)]
-    shards += [("hist", (seed * 1000 + 750 + k, 120 if quick else 2000)) for k in range(4)]
+    shards = [("defs", (seed * 1000 + 700 + k, 600 if quick else 6000)) for k in range(12)]
+    shards += [("hist", (seed * 1000 + 750 + k, 300 if quick else 3000)) for k in range(4)]
     col = core.run_shards(worker, shards)
     need = ["kind:definition", "kind:history", "cond:header", "cond:exists", "cond:size", "cond:envelope", "cond:address",
             "cond:body", "cond:currentdate", "cond:true", "act:fileinto", "act:redirect", "act:reject", "act:keep",
